@@ -59,11 +59,14 @@ Locs == {"a1", "a2", "b1", "lay"}
 Regs == {"rega", "regb"}
 RegOf == [a1 |-> "rega", a2 |-> "rega", b1 |-> "regb", lay |-> "lay"]
 RepoOf == [a1 |-> "repo1", a2 |-> "repo2", b1 |-> "repo1", lay |-> "lay"]
-Mids == {"M1", "M2", "IX"}                 \* amd64 image, arm64 image, index of both
+Mids == {"M1", "M2", "IX", "HM"}           \* amd64 image, arm64 image, index of both; HM = the empty
+                                           \* manifest that results from putting / exporting the
+                                           \* body-less object of a head request
 Bids == {"C1", "L1", "C2", "L2", "S"}      \* configs, layers, S = a blob pushed from a string
-Kids == [M1 |-> {"C1", "L1"}, M2 |-> {"C2", "L2"}, IX |-> {"M1", "M2"}]
+Kids == [M1 |-> {"C1", "L1"}, M2 |-> {"C2", "L2"}, IX |-> {"M1", "M2"}, HM |-> {}]
 Closure(m) == IF m = "IX" THEN {"IX", "M1", "M2", "C1", "L1", "C2", "L2"} ELSE {m} \cup Kids[m]
 CfgOf == [M1 |-> "C1", M2 |-> "C2"]
+HasCfg(m) == m \in {"M1", "M2"}
 TagNames == {"ix", "new", "v1"}            \* the tag "none" exists nowhere, ever
 TagOrder == <<"ix", "new", "v1">>          \* listing order (sorted)
 None == "-"
@@ -130,7 +133,11 @@ ManifestGet(st, w, e) ==
   IF ~Valid(r) \/ id = None \/ rid = None THEN Fail(w, e)
   ELSE Ok(IF head THEN "head" ELSE rid, w, [e EXCEPT !.m = [id |-> rid, loc |-> r.loc, tag |-> r.tag, head |-> head]])
 
-MExport(st, w, e) == IF e.m.id = None \/ e.m.head THEN Fail(w, e) ELSE Ok(e.m.id, w, e)
+\* manifest.go:manifestExport - of a head object: GetOrig() is the zero manifest, the result is HM
+MExport(st, w, e) ==
+  IF e.m.id = None THEN Fail(w, e)
+  ELSE IF e.m.head THEN Ok("HM", w, [e EXCEPT !.m.id = "HM", !.m.head = FALSE])
+  ELSE Ok(e.m.id, w, e)
 CExport(st, w, e) == IF e.c.id = None THEN Fail(w, e) ELSE Ok(e.c.id, w, e)
 MRateLimit(st, w, e) == IF e.m.id = None THEN Fail(w, e) ELSE Ok("ratelimit", w, e)
 RateLimitWait(st, w, e) ==
@@ -166,12 +173,14 @@ MDelete(st, w, e, dry) ==
   ELSE Ok("done", [w EXCEPT !.obj[m.loc] = @ \ {m.id},
                             !.tag[m.loc] = [t \in TagNames |-> IF @[t] = m.id THEN None ELSE @[t]]], e)
 
+\* manifest.New(WithOrig(m.GetOrig())): for the object of a head request that is the zero manifest HM
 ManifestPut(st, w, e, dry) ==
-  LET r == RefArg(st.l1, st.t1, e) IN
-  IF e.m.id = None \/ e.m.head \/ ~Valid(r) THEN Fail(w, e)
+  LET r == RefArg(st.l1, st.t1, e)
+      id == IF e.m.head THEN "HM" ELSE e.m.id IN
+  IF e.m.id = None \/ ~Valid(r) THEN Fail(w, e)
   ELSE IF Skip(st.op, dry) THEN Ok("done", w, e)
-  ELSE Ok("done", [w EXCEPT !.obj[r.loc] = @ \cup {e.m.id},
-                            !.tag[r.loc] = IF r.tag \in TagNames THEN [@ EXCEPT ![r.tag] = e.m.id] ELSE @], e)
+  ELSE Ok("done", [w EXCEPT !.obj[r.loc] = @ \cup {id},
+                            !.tag[r.loc] = IF r.tag \in TagNames THEN [@ EXCEPT ![r.tag] = id] ELSE @], e)
 
 \* content: a string (l2 = "str"), a blob object ($b; only one from blob.get carries a reader, and
 \* the reader is used up by the push) or a config object ($c)
@@ -185,8 +194,11 @@ BlobPut(st, w, e, dry) ==
   ELSE Ok("blob:" \o id, [w EXCEPT !.obj[r.loc] = @ \cup {id}], IF st.l2 = "$b" THEN [e EXCEPT !.b.rd = FALSE] ELSE e)
 
 \* throttled bindings: Pre = what happens before throttle.Acquire, In = what happens holding the slot
+\* <manifest>:config on the object of a get of an image: the exported field `config` (the
+\* descriptor) hides the method, Lua fails with "attempt to call a non-function object"
 ConfigPre(st, w, e) ==
-  IF st.op = "m:config" \/ st.l1 = "$m" THEN (IF e.m.id = None THEN Fail(w, e) ELSE Ok("", w, e))
+  IF st.op = "m:config" /\ ~e.m.head /\ e.m.id \in {"M1", "M2", "HM"} THEN Fail(w, e)
+  ELSE IF st.op = "m:config" \/ st.l1 = "$m" THEN (IF e.m.id = None THEN Fail(w, e) ELSE Ok("", w, e))
   ELSE LET r == RefArg(st.l1, st.t1, e)
            id == Lookup(w, r)
            rid == Resolve(w, r.loc, id, "") IN
@@ -195,7 +207,7 @@ ConfigPre(st, w, e) ==
 \* (the manifest fetched by checkManifest is local to the call; the spec parks it in e.m of a scratch
 \* environment, see Begin/Body)
 ConfigIn(st, w, e, m) ==
-  IF m.id = "IX" \/ m.head \/ CfgOf[m.id] \notin w.obj[m.loc] THEN Fail(w, e)
+  IF ~HasCfg(m.id) \/ m.head \/ CfgOf[m.id] \notin w.obj[m.loc] THEN Fail(w, e)
   ELSE Ok(CfgOf[m.id], w, [e EXCEPT !.c = [id |-> CfgOf[m.id], loc |-> m.loc, tag |-> m.tag]])
 
 CopyPre(st, w, e) ==
